@@ -984,7 +984,10 @@ func c02Fam(v6 bool) string {
 // detached names the interfaces of prev that were not attached to the instance in the cloud
 // when the pass started (nil: all attached): a binding is protected only while its interface
 // is attached, marking such an interface for deletion is the right reaction to drift.
-func c02CheckRecord(prev, cur map[string]*networkv1beta1.NetworkInterface, pods map[string]*c02PodView, everPod map[string]bool, detached map[string]bool, enableERDMA bool) (string, map[string]bool) {
+//
+// eflo: on an EFLO node the cloud itself may report an address as not available, so an
+// address first seen in this pass may legitimately enter the record as Deleting.
+func c02CheckRecord(prev, cur map[string]*networkv1beta1.NetworkInterface, pods map[string]*c02PodView, everPod map[string]bool, detached map[string]bool, eflo, enableERDMA bool) (string, map[string]bool) {
 	facts := map[string]bool{}
 	where := map[string]string{}
 	type podB struct{ eni4, a4, eni6, a6 string }
@@ -1062,6 +1065,20 @@ func c02CheckRecord(prev, cur map[string]*networkv1beta1.NetworkInterface, pods 
 			facts["takeover"] = true
 			if b.ipStatus != networkv1beta1.IPStatusValid || b.eniStatus != aliyunClient.ENIStatusInUse {
 				facts["takeover-invalid"] = true
+			}
+			// (iv) the re-adoption exemption covers an address / interface that was already
+			// scheduled for deletion (or not in use) before the pass, not one that this very
+			// pass scheduled for deletion: the record then binds a running pod to an address
+			// the next pass releases
+			if !detached[b.eni] {
+				_, known := prevPod[key]
+				pe, eniKnown := prev[b.eni]
+				if b.ipStatus == networkv1beta1.IPStatusDeleting && (prevValid[key] || (!known && !eflo)) {
+					return fmt.Sprintf("(iv) pod %s was re-adopted onto %s on %s, which this pass scheduled for deletion", b.pod, b.addr, b.eni), facts
+				}
+				if b.eniStatus == aliyunClient.ENIStatusDeleting && ((eniKnown && pe.Status != aliyunClient.ENIStatusDeleting) || (!eniKnown && !eflo)) {
+					return fmt.Sprintf("(iv) pod %s was re-adopted onto %s on interface %s, which this pass scheduled for deletion", b.pod, b.addr, b.eni), facts
+				}
 			}
 			continue
 		}
